@@ -87,11 +87,17 @@ Definition P1 (b : builder) (p : bytes) : builder :=
   end.
 Definition P (b : builder) (phrases : list bytes) : builder := fold_left P1 phrases b.
 
-(** * sqlx.go: Ident *)
+(** * sqlx.go: Ident
+    (since fix C16-ident-double-quote-char: strings.ReplaceAll(s, QuoteClosing, QuoteClosing x 2)) *)
+Fixpoint escape_ident (qc : N) (n : bytes) : bytes :=
+  match n with
+  | [] => []
+  | c :: r => if N.eqb c qc then qc :: qc :: escape_ident qc r else c :: escape_ident qc r
+  end.
 Definition Ident (b : builder) (s : bytes) : builder :=
   match s with
   | [] => b
-  | _ => WriteByte (WriteByte (WriteString (WriteByte b (qo b)) s) (qc b)) SP
+  | _ => WriteByte (WriteByte (WriteString (WriteByte b (qo b)) (escape_ident (qc b) s)) (qc b)) SP
   end.
 
 (** * sqlx.go: mayQualify *)
@@ -249,7 +255,7 @@ Definition new_builder (qopen qclose : N) (q : option bytes) (ind : bytes) : bui
 
 (** * Specification vocabulary (no Go counterpart): identifier chains
     What a qualifying call is expected to write: the chain of names, and its text. *)
-Definition render_ident (o c : N) (n : bytes) : bytes := o :: n ++ [c].
+Definition render_ident (o c : N) (n : bytes) : bytes := o :: escape_ident c n ++ [c].
 Fixpoint render_chain (o c : N) (l : list bytes) : bytes :=
   match l with
   | [] => []
